@@ -46,6 +46,7 @@ func validityMulti() []Op {
 		{Intents: []IntentSpec{{Owner: "A", Prio: 10, Frag: "vup"}, {Owner: "B", Prio: 20, Frag: "vif"}}},
 		{Intents: []IntentSpec{{Owner: "A", Prio: 10, Frag: "vg"}, {Owner: "C", Prio: 30, Frag: "vm5"}}},
 		{Intents: []IntentSpec{{Owner: "A", Prio: 10, Delete: true}, {Owner: "B", Prio: 20, Frag: "vh1"}}},
+		{Intents: []IntentSpec{{Owner: "A", Prio: 10, Frag: "vg"}, {Owner: "B", Prio: 20, Frag: "vh1"}}},
 	}
 }
 
